@@ -1,5 +1,5 @@
 (** C04 -- the numbers carried by the connections [fromgeo] builds. *)
-From Coq Require Import Ascii String List Bool Arith ZArith QArith Qminmax Lia Lqa Permutation Setoid Morphisms.
+From Coq Require Import Ascii String List Bool Arith ZArith QArith Qabs Qminmax Lia Lqa Permutation Setoid Morphisms.
 From PTBase Require Import Exn PyStr.
 From P Require Import FromGeo Arith Lists NamesAgree Volume.
 Import ListNotations.
@@ -115,7 +115,12 @@ Definition horizontal_spec_at (g : geom) (bm : list (str * str)) (i : nat) (l : 
     let dy := ccy (hcolB h) - ccy (hcolA h) in
     let dz := zcentre l (hcolB h) - zcentre l (hcolA h) in
     coef (kcos k) == dx * tiltx g + dy * tilty g + dz * tiltz g /\
-    rad (kcos k) == / (dx ^ 2 + dy ^ 2 + dz ^ 2).
+    rad (kcos k) == / (dx ^ 2 + dy ^ 2 + dz ^ 2) /\
+    (* permeability direction: the larger component of the centre line, turned by the
+       permeability angle (the first one on a tie) *)
+    let d2x := pcos g * dx + psin g * dy in
+    let d2y := - psin g * dx + pcos g * dy in
+    (Qabs d2y <= Qabs d2x -> kdir k = 1%nat) /\ (Qabs d2x < Qabs d2y -> kdir k = 2%nat).
 
 Definition horizontal_spec (g : geom) (bm : list (str * str)) (k : conn) : Prop :=
   exists i l h, horizontal_spec_at g bm i l h k.
@@ -230,9 +235,14 @@ Section ConnSpec.
     split; [exact S1|].
     split; [rewrite <- qmin_Qmin; apply qmin_comp; qnorm; unfold block_height; [rewrite Qa|rewrite Qb]; reflexivity|].
     split; [reflexivity|]. split; [exact S2|]. split; [reflexivity|]. split; [exact S3|].
-    split.
-    - qnorm. rewrite Qza, Qzb. reflexivity.
-    - qnorm. rewrite Qza, Qzb. apply Qinv_comp. ring.
+    split; [qnorm; rewrite Qza, Qzb; reflexivity|].
+    split; [qnorm; rewrite Qza, Qzb; apply Qinv_comp; ring|].
+    match goal with |- context [if qleb ?a ?b then _ else _] => destruct (qleb a b) eqn:Q end; unfold qabs in Q;
+      [apply qleb_iff in Q|apply qleb_false in Q];
+      repeat (rewrite qadd_eq in Q || rewrite qsub_eq in Q || rewrite qmul_eq in Q);
+      (split; intro HQ; [try reflexivity|try reflexivity]).
+    - exfalso. exact (Qlt_not_le _ _ HQ Q).
+    - exfalso. exact (Qlt_not_le _ _ Q HQ).
   Qed.
 End ConnSpec.
 
@@ -346,7 +356,7 @@ Lemma horizontal_dircos_lemma g bm i l h k :
   (~ (ccx (hcolA h) == ccx (hcolB h) /\ ccy (hcolA h) == ccy (hcolB h)) -> 0 < rad (kcos k)).
 Proof.
   intros H [Tx [Ty Tz]]. unfold horizontal_spec_at in H.
-  destruct H as [_ [_ [_ [_ [_ [_ [_ [_ [_ [_ [_ [_ [_ [Hc Hr]]]]]]]]]]]]]]. cbn zeta in Hc, Hr.
+  destruct H as [_ [_ [_ [_ [_ [_ [_ [_ [_ [_ [_ [_ [_ [Hc [Hr _]]]]]]]]]]]]]]]. cbn zeta in Hc, Hr.
   assert (E : coef (kcos k) == zcentre l (hcolA h) - zcentre l (hcolB h)).
   { rewrite Hc, Tx, Ty, Tz. ring. }
   split; [exact E|]. split.
@@ -409,4 +419,17 @@ Lemma model_arith_lemma a b :
 Proof.
   split; [apply qadd_eq|]. split; [apply qsub_eq|]. split; [apply qmul_eq|]. split; [apply qdiv_eq|].
   split; [apply qleb_iff|apply qmin_Qmin].
+Qed.
+
+(** horizontal connection: the permeability direction *)
+Lemma horizontal_direction_lemma g bm i l h k :
+  horizontal_spec_at g bm i l h k ->
+  let dx := ccx (hcolB h) - ccx (hcolA h) in
+  let dy := ccy (hcolB h) - ccy (hcolA h) in
+  let d2x := pcos g * dx + psin g * dy in
+  let d2y := - psin g * dx + pcos g * dy in
+  (Qabs d2y <= Qabs d2x -> kdir k = 1%nat) /\ (Qabs d2x < Qabs d2y -> kdir k = 2%nat).
+Proof.
+  unfold horizontal_spec_at.
+  intros [_ [_ [_ [_ [_ [_ [_ [_ [_ [_ [_ [_ [_ [_ [_ H]]]]]]]]]]]]]]]. exact H.
 Qed.
